@@ -49,7 +49,7 @@ theorem meaning_mono : Mono Op.meaning := by
     have hv : v ≠ 19 := by
       intro hv; subst hv
       simp only [adapt, if_true, dft_19_20] at h
-      split at h <;> cases h
+      cases h
     by_cases hle : v ≤ 19
     · have hle' : v + 1 ≤ 19 := by omega
       simp [Op.meaning, hle, hle']
@@ -106,23 +106,21 @@ theorem dft_axis_attr_eq_input (a : Int) (inv one : Option Int) (hasLen : Bool) 
   unfold Good
   simp [adapt, dft_19_20, pmOps, Op.isAux, Op.meaning]
 
-/-- **`dft_19_20`, no `axis` attribute.**  The adapter leaves the node alone.  That is right exactly when
-the old default (attribute, 1) and the new default (input, -2) name the same axis: rank 3. -/
-theorem dft_default_axis_partial (inv one : Option Int) (hasLen : Bool) (rank : Nat) (h3 : rank = 3) :
-    Good Op.meaning (.dft none inv one hasLen none rank) 19 := by
-  subst h3
+/-- **`dft_19_20`, for every DFT valid at opset 19** (with or without an `axis` attribute, every rank,
+`inverse`, `onesided`, `dft_length`): the step 19→20 preserves the meaning.  Without the attribute the
+opset-19 default (1) is written into the new `axis` input, so the opset-20 default (-2) never applies.
+Full statement — holds since 765f1d4 (finding C10-DFT-AXIS, fixed). -/
+theorem dft_default_axis (axis inv one : Option Int) (hasLen : Bool) (rank : Nat) :
+    Good Op.meaning (.dft axis inv one hasLen none rank) 19 := by
   unfold Good
-  simp [adapt, dft_19_20, Op.meaning, normAxis]
+  cases axis <;> simp [adapt, dft_19_20, pmOps, Op.isAux, Op.meaning]
 
-/-- Full statement (all ranks) refuted: rank 4, `DFT(x)` at opset 19 transforms axis 1, the same node at
-opset 20 transforms axis 2.  Replayed on the real code (finding C10-DFT-AXIS). -/
-theorem dft_default_axis_refuted :
-    ¬ (∀ rank, Good Op.meaning (.dft none none none false none rank) 19) := by
-  intro h
-  have := h 4
-  revert this
-  unfold Good
-  simp [adapt, dft_19_20, Op.meaning, normAxis]
+/-- The adapter as it was before 765f1d4 did nothing without an `axis` attribute; for rank 4 the untouched
+node reads as axis 1 at opset 19 and as axis 2 at opset 20.  (Regression witness, replayed on the real code.) -/
+theorem dft_default_axis_prefix_refuted :
+    dft_19_20_prefix (.dft none none none false none 4) = .retNone ∧
+    Op.meaning (.dft none none none false none 4) 20 ≠ Op.meaning (.dft none none none false none 4) 19 := by
+  decide
 
 /-- **Scale rewrite of `groupnormalization_20_21`, tensor level.**  For *every* number of groups `g`,
 every group size `k = C/g` and every per-group vector `s` of length `g`:
@@ -164,12 +162,13 @@ theorem groupnorm_scale_expand_div {α} (k : Nat) (s : List α) (i : Nat) (hi : 
   rwa [Nat.div_add_mod' i k] at this
 
 /-- **`groupnormalization_20_21`, rewriting case.**  When every shape is static, `num_groups` divides the
-channel count and no `epsilon` attribute is set, the step 20→21 preserves the node's meaning (the layout
-becomes per channel; the contents are related by `groupnorm_scale_expand`). -/
+channel count, the step 20→21 preserves the node's meaning, `epsilon` included — every `epsilon` value,
+since 71fb858 — (the layout becomes per channel; the contents are related by `groupnorm_scale_expand`).
+`_partial`: the static-shape hypotheses are what D13a/b violate. -/
 theorem groupnorm_rewrite_partial (n : GN) (g : Nat) (hg : n.groups = some g)
     (hin : n.hasX = true ∧ n.hasScale = true ∧ n.hasBias = true)
     (hvis : n.xVis = .known ∧ n.sVis = .known ∧ n.bVis = .known)
-    (hlay : n.sLen = g ∧ n.bLen = g) (hdiv : g * (n.c / g) = n.c) (heps : n.eps = none) :
+    (hlay : n.sLen = g ∧ n.bLen = g) (hdiv : g * (n.c / g) = n.c) :
     Good Op.meaning (.groupNorm n) 20 := by
   obtain ⟨hx, hs, hb⟩ := hin
   obtain ⟨vx, vs, vb⟩ := hvis
@@ -178,7 +177,7 @@ theorem groupnorm_rewrite_partial (n : GN) (g : Nat) (hg : n.groups = some g)
   simp only [adapt, if_true, groupnormalization_20_21, hx, hs, hb, vx, vs, vb, hg]
   by_cases hgc : g = n.c
   · simp [hgc, ls, lb, Op.meaning, hg, hx, hs, hb] at *
-  · simp [hgc, ls, lb, gnReplacement, pmOps, Op.isAux, Op.meaning, hg, hx, hs, hb, hdiv, heps]
+  · simp [hgc, ls, lb, gnReplacement, pmOps, Op.isAux, Op.meaning, hg, hx, hs, hb, hdiv]
 
 /-- **`groupnorm_none_cases`.**  For a node that *needs* the rewrite (per-group scale and bias,
 `num_groups ≠ C`), the adapter nevertheless returns `None` exactly when the channel dimension of `x` is
@@ -215,11 +214,20 @@ def gnStatic : GN :=
   { hasX := true, hasScale := true, hasBias := true, groups := some 2, eps := none, c := 4, sLen := 2, bLen := 2,
     xVis := .known, sVis := .known, bVis := .known }
 
-/-- The rewrite drops `epsilon`: `GroupNormalization(num_groups=2, epsilon=0.5)` on 4 channels.
-Replayed on the real code (finding C10-GN-EPS). -/
-theorem groupnorm_epsilon_dropped : ¬ Good Op.meaning (.groupNorm { gnStatic with eps := some "0.5" }) 20 := by
-  unfold Good
-  simp [gnStatic, adapt, groupnormalization_20_21, gnReplacement, pmOps, Op.isAux, Op.meaning]
+/-- **Epsilon preserved.**  Whatever `epsilon` attribute the node carries (or none), the rewritten
+GroupNormalization carries the same one.  Holds since 71fb858 (finding C10-GN-EPS, fixed). -/
+theorem groupnorm_epsilon_preserved (n : GN) (g : Nat) :
+    ∃ n', (gnReplacement n g).getLast? = some (.groupNorm n') ∧ n'.eps = n.eps ∧ n'.groups = n.groups ∧ n'.c = n.c := by
+  exact ⟨_, rfl, rfl, rfl, rfl⟩
+
+/-- Before 71fb858 the rewritten node lost `epsilon`: `GroupNormalization(num_groups=2, epsilon=0.5)` on 4
+channels then read differently at 21 than the source at 20.  (Regression witness, replayed on the real code.) -/
+theorem groupnorm_epsilon_prefix_refuted :
+    Op.meaning (gnRewrittenPrefix { gnStatic with eps := some "0.5" } 2) 21
+      ≠ Op.meaning (.groupNorm { gnStatic with eps := some "0.5" }) 20 ∧
+    Op.meaning ((gnReplacement { gnStatic with eps := some "0.5" } 2).getLast?.getD (.plain "")) 21
+      = Op.meaning (.groupNorm { gnStatic with eps := some "0.5" }) 20 := by
+  decide
 
 /-! ## The whole conversion -/
 
@@ -269,7 +277,7 @@ theorem convert_consistent_proto (s t : Nat) (fb : Fallback) (capi : CApi) (m0 m
     | none => exact Or.inr (Or.inr rfl)
 
 /-- **`convert_equivalent` (`_partial`: hypothesis `Good Op.meaning` on every step, i.e. outside the
-regions of the findings D13a/b, C10-DFT-AXIS, C10-GN-EPS).**  Native path, `ir.Model` entry: after a
+regions of the open findings D13a/b).**  Native path, `ir.Model` entry: after a
 successful conversion every non-auxiliary node, read at the opset it is now written for, means what the
 corresponding source node meant at `s` — in order, subgraphs included — and inputs and initializers are
 untouched; on the C-API path the model is the recovered C-API result (contract). -/
@@ -392,7 +400,7 @@ example : SelfConsistent Op.meaning 18 demoModel ∧ inlineModel demoModel = .ok
   have hgn : ∀ v', Good Op.meaning (.groupNorm gnStatic) v' := fun v' => by
     by_cases h : v' = 20
     · subst h
-      exact groupnorm_rewrite_partial gnStatic 2 rfl ⟨rfl, rfl, rfl⟩ ⟨rfl, rfl, rfl⟩ ⟨rfl, rfl⟩ (by decide) rfl
+      exact groupnorm_rewrite_partial gnStatic 2 rfl ⟨rfl, rfl, rfl⟩ ⟨rfl, rfl, rfl⟩ ⟨rfl, rfl⟩ (by decide)
     · exact good_of_quiet _ (by simp [adapt, h])
   have hif : ∀ v', Good Op.meaning (.plain "If") v' := fun v' => good_of_quiet _ rfl
   refine ⟨⟨rfl, rfl, rfl, ?_⟩, rfl⟩
